@@ -357,3 +357,24 @@ PROPS["C19"] = {
         "the expected tag set is event tags, then cloud tags, then static tags, compared as a set",
     ],
 }
+
+PROPS["C20"] = {
+    "pkg": "c20", "level": "exploration",
+    "jobs": {
+        "quick": [
+            {"name": "ordering", "run": "^TestExtensionOrdering$", "checks": 64, "shards": 16},
+            {"name": "startup", "run": "^TestStartupFailure$", "checks": 24, "shards": 4},
+        ],
+        "thorough": [
+            {"name": "ordering", "run": "^TestExtensionOrdering$", "checks": 3200, "shards": 16, "timeout": 1700},
+            {"name": "startup", "run": "^TestStartupFailure$", "checks": 400, "shards": 4, "timeout": 1700},
+        ],
+    },
+    "assumptions": [
+        "the real Lambda freeze cannot be reproduced; the invariant is checked on the order of requests in one mutex-ordered log shared by the fake runtime API and the fake upstream",
+        "'accepted' means the ingestion endpoint answered 202; datapoints accepted after the runtimeDone record was posted are not required in that invocation's flush",
+        "the initial flush is made observable by holding the answer to the telemetry subscription until the start-up datapoints were accepted (the heartbeat starts only after that answer)",
+        "upstream retries are disabled (max-request-elapsed-time -1) so that 'has reached or been refused by the upstream' is one finished request",
+        "dynamic headers are out of scope (documented as unsupported in this mode)",
+    ],
+}
